@@ -67,8 +67,14 @@ def obj_attr(ex, st, o, v, attr, node):
         return [(st, v.f[attr])]
     if attr == "__class__":
         return [(st, ClassV(None, v.cls))]
+    ek = "ext::%s.%s" % (v.cls, attr)
+    if ek in dsl.CONTRACTS:
+        return [(st, Func("ext", ek, bound=o))]       # assumed contract of a library class's method
     fnode, ci, m = find_method(ex, v.cls, attr)
     if fnode is None:
+        ek = "ext::%s.%s" % (v.cls, attr)
+        if ek in dsl.CONTRACTS:
+            return [(st, Func("ext", ek, bound=o))]       # assumed contract of a library class's method
         raise Unsupported("attribute %s.%s" % (v.cls, attr))
     if not isinstance(fnode, ast.FunctionDef):
         # class attribute
@@ -290,7 +296,11 @@ def comprehension(ex, st, e, kind):
         if isinstance(probe, (Rec, tuple, Tab, SliceV)) or (isinstance(probe, Ref) and not isinstance(s.get(probe), (int,))):
             out.append((s, Seq(n_out, at)))
         elif kind == "gen":
-            out.append((s, IterV(n_out, at)))
+            it = IterV(n_out, at)
+            if g.ifs and isinstance(e.elt, ast.Constant) and isinstance(e.elt.value, int) and not isinstance(e.elt.value, bool):
+                # (c for x in xs if cond): remembered as "c where cond", so that sum() of it is a sum of indicators
+                it.masked_const = (N, cond_at, e.elt.value)
+            out.append((s, it))
         else:
             out.append((s, s.alloc(Vec(n_out, at, kind="list"))))
     return out
